@@ -24,6 +24,18 @@ type FS struct {
 	mu      sync.Mutex
 	log     []string // names of the counted operations (diagnostics; bounded)
 	logOn   bool
+	// stall: while set, the creation of table files (*.sst) blocks - a disk that has stopped answering.  The channel is closed to release.
+	stall atomic.Pointer[chan struct{}]
+	// Stalled counts file creations that had to wait.
+	Stalled atomic.Int64
+}
+
+// Stall makes every creation of a table file (*.sst) block until the returned function is called.
+func (f *FS) Stall() (release func()) {
+	ch := make(chan struct{})
+	f.stall.Store(&ch)
+	var once sync.Once
+	return func() { once.Do(func() { f.stall.Store(nil); close(ch) }) }
 }
 
 var _ vfs.FS = (*FS)(nil)
@@ -150,7 +162,15 @@ func (f *FS) wrap(x vfs.File, err error, name string) (vfs.File, error) {
 	return &file{File: x, fs: f, name: name}, nil
 }
 
+func (f *FS) waitStall(name string) {
+	if p := f.stall.Load(); p != nil && len(name) > 4 && name[len(name)-4:] == ".sst" {
+		f.Stalled.Add(1)
+		<-*p
+	}
+}
+
 func (f *FS) Create(name string) (vfs.File, error) {
+	f.waitStall(name)
 	f.tick("create " + name)
 	x, err := f.mem.Create(name)
 	return f.wrap(x, err, name)
